@@ -1683,6 +1683,9 @@ func (p *parser) hoistSymbols(scope *js_ast.Scope) {
 					if existingSymbol.Kind == ast.SymbolUnbound || existingSymbol.Kind == ast.SymbolHoisted ||
 						(existingSymbol.Kind.IsFunction() && (s.Kind == js_ast.ScopeEntry || s.Kind == js_ast.ScopeFunctionBody)) {
 						// Silently merge this symbol into the existing symbol
+						if symbol.Flags.Has(ast.MustNotBeRenamed) {
+							existingSymbol.Flags |= ast.MustNotBeRenamed
+						}
 						symbol.Link = existingMember.Ref
 						s.Members[symbol.OriginalName] = existingMember
 						continue nextMember
